@@ -19,12 +19,16 @@ PENDING = {
  "C04":"check under construction in this session (hostile scenario)",
  "C05":"check under construction in this session (proxy scenario)",
  "C07":"check under construction in this session (corrupt scenario)",
- "C10":"check under construction in this session (route scenario)",
  "C15":"check under construction in this session (exchange scenario)",
  "C18":"check under construction in this session (share scenario)",
 }
 TECH = "deterministic simulation with fault injection"
 CLAIMED = {
+ "C10": dict(cat="exploration",
+   text="seeded fault-free sessions on a real client connection with 1-8 concurrent senders; the peer answers in drawn permutations with gaps, multi-page responses, interleaved events and spurious responses; exactly-once, in-order routing checked over the recorded history",
+   ref="DESIGN.md §5 C10",
+   note="sampled schedules and response orders; peer is the repository's own server connection driven by harness tasks (a raw refwire peer is added where available); tags inside frames make every response attributable",
+   tech=TECH+" (seeded interleavings + permuting peer; exactly-once routing oracle over the recorded history)"),
  "C16": dict(cat="fault_enumeration",
    text="seeded sessions of real client and server connections over a simulated network; one or two crash points (close/cancel/reset/EOF/I-O error/stall) injected at drawn scheduler steps of the same seeded session; oracles at quiescence on the fake clock (requests complete, callers return, sends refused after close, no panic, no goroutine left)",
    ref="DESIGN.md §5 C16",
